@@ -5,6 +5,7 @@ use std::io::{self, BufRead, Write};
 use std::panic;
 
 mod adjustable;
+mod collections;
 mod context;
 mod ugraph;
 
@@ -12,6 +13,7 @@ mod ugraph;
 fn run_case(fam: &str, args: &[i128]) -> Vec<i128> {
     match fam {
         "adjustable" => adjustable::run(args),
+        "collections" => collections::run(args),
         "context" => context::run(args),
         f if f.starts_with("ugraph_") => ugraph::run(args, f[7..].parse().unwrap()),
         f if f.starts_with("spath_") => ugraph::run_spath(args, f[6..].parse().unwrap()),
